@@ -226,6 +226,9 @@ def coq_make(targets, timeout=1500):
     ensure_dir(os.path.join(COQ, "gen"))
     with Lock("coqmake"):
         coq_refresh_makefile()
+        targets = list(targets)
+        if "theories/Lib/CaseRun.vo" not in targets:   # needed by every generated cases file, by no theory file
+            targets.append("theories/Lib/CaseRun.vo")
         rc, out = sh(["timeout", str(timeout), "make", "-j%d" % NCPU] + list(targets), cwd=COQ,
                      timeout=timeout + 30)
     return rc, out
